@@ -186,6 +186,27 @@ def run(chk):
             # relative to the response series: one explicit factor dt (sum of a * v * dt)
             r2 = analyse(chk, q, build, atoms=(R, DT, T), setup=setup2)
             expect(chk, "R-ENERGY", c + "[relative to the response]", r2.ret, deg={DT: 1, R: 2}, loc=r.fi.loc())
+    # the unit-mass kinetic energy is 0.5 * v^2 (normal form, the local `mass = 1` folded in); the series variant accumulates over time
+    # (axis 1), like the sum it ends at; the plain spectrum is what a call without `series` returns
+    fu = P.fn("eqsig.sdof.calc_resp_uke_spectrum")
+    ke = [n for n in ast.walk(fu.node) if isinstance(n, ast.Assign) and len(n.targets) == 1 and isinstance(n.value, ast.BinOp) and
+          any(isinstance(x, ast.BinOp) and isinstance(x.op, ast.Pow) for x in ast.walk(n.value))]
+    if len(ke) == 1:
+        nm_ = straightline_env(fu.node.body, Normaliser(), exclude=set(fu.params))
+        consts_ = {n.targets[0].id: n.value.value for n in ast.walk(fu.node) if isinstance(n, ast.Assign) and len(n.targets) == 1 and
+                   isinstance(n.targets[0], ast.Name) and isinstance(n.value, ast.Constant) and isinstance(n.value.value, (int, float))}
+        p_ = Normaliser(const_names=consts_).poly(ke[0].value)
+        okk = p_.is_monomial() and list(p_.t.values())[0] == Fraction(1, 2) and len(p_.atoms()) == 1 and list(dict(list(p_.t)[0]).values()) == [2]
+        chk.ob("R-ENERGY", "eqsig/sdof.py:calc_resp_uke_spectrum{kinetic energy}", "kinetic energy per unit mass = 0.5 * v^2", okk, derived=p_.canon(),
+               loc=fu.loc(ke[0]), stmt=norm_stmt(ke[0]))
+    fe_ = P.fn("eqsig.sdof.calc_input_energy_spectrum")
+    for n in ast.walk(fe_.node):
+        if isinstance(n, ast.Call) and ast.unparse(n.func).split(".")[-1] in ("cumsum", "sum"):
+            ax = next((k.value for k in n.keywords if k.arg == "axis"), None)
+            chk.ob("R-ENERGY", "eqsig/sdof.py:calc_input_energy_spectrum{%s axis}" % ast.unparse(n.func).split(".")[-1], "accumulated over time (axis 1), one row per period",
+                   isinstance(ax, ast.Constant) and ax.value in (1, -1), derived="axis=%s" % (ast.unparse(ax) if ax is not None else None), loc=fe_.loc(n),
+                   inconclusive=ax is None)
+    sibling_defaults(chk, "R-ENERGY", ["eqsig.sdof.calc_input_energy_spectrum"], neutral={"series": False}, label="calc_input_energy_spectrum")
     chk.floor("R-SRC", 16)
     chk.floor("R-PSEUDO", 7)
     chk.floor("R-CUT", 12)
